@@ -8,31 +8,51 @@ Proved in full: `class_priority_wins`.
 Proved for the FULL-RESYNC path only (hence `_partial`): convergence, stale removal and non-interference for an
 `Apply` (including its inline retry) that starts with a full resync pending — the first Apply after start,
 any Apply after `QueueResync`, any Apply after a failed resync — after ANY history of operations
-(`W.run`: route API calls, interface events, foreign kernel changes, earlier Applies with any failures) from ANY
+(`W.run`: route API calls, interface events with immediate or delayed callbacks, foreign kernel changes, earlier
+Applies with any failures) from ANY
 start state whose kernel table has one route per destination.
 What is missing: (1) Applies that only do per-interface rescans (`ifacesToRescan`/`resyncIface`) — for those
 the three clauses are evaluated as oracles on the real code and backed by the model correspondence only;
 (2) the `Apply`-level theorems assume that the first attempt leaves no interface queued for a rescan
 (no RouteReplace failed on an interface that is down in the kernel) — the attempt-level theorem
 `attempt_converges_partial` does not need that.
+"Desired" in these theorems is the code's cache of desired routes (`kernelRoutes.Desired()`, recalculated per
+destination on the code's triggers); that the cache equals the class-priority winner over the CURRENT targets and
+interfaces after interface churn is NOT proved (it is false of the code in a corner case, see the report) — it is
+what the convergence oracle checks on the real code.
 Grace periods, ARP, conntrack tracking and multi-path are outside the model.
 -/
 namespace CalicoVerif.C17
 
-/-- **class_priority_wins**: for every set of desired targets and interface states, the route Felix wants for a
-destination is one of the live targets (interface present and up) and no live target has a lower route class,
-or the same class and a higher interface index; and a destination with at least one live target always has a
-desired route. -/
+theorem recalc_desired (t : RT) (c : String) : (t.recalc c).desired c = t.bestRoute c := by
+  unfold RT.recalc RT.desired
+  cases h : t.bestRoute c with
+  | none => dsimp only; rw [Map.get_erase]; simp
+  | some r => dsimp only; rw [Map.get_set]; simp
+
+/-- **class_priority_wins**: for every set of desired targets and interface knowledge, the route that
+`recalculateDesiredKernelRoute` picks for a destination comes from one of the live targets (interface name known,
+its index recorded as up) and no live target has a lower route class, or the same class and a higher interface
+index; a destination with at least one live target always gets a route; that route is what the recalculation
+stores as the desired route; and `RouteUpdate` leaves the desired route of its destination equal to the winner
+over the updated targets.  (The desired routes are a cache, recalculated per destination on the code's triggers;
+that the cache is up to date for every destination after interface events is checked by the oracle, not proved.) -/
 theorem class_priority_wins (t : RT) (cidr : String) :
     (∀ r, t.best cidr = some r → r ∈ t.cands cidr ∧ ∀ x ∈ t.cands cidr, better x r = false) ∧
-    (∀ x, x ∈ t.cands cidr → (t.desired cidr).isSome = true) := by
-  refine ⟨fun r h => best_spec t cidr r h, ?_⟩
-  intro x hx
-  unfold RT.desired
-  have := best_isSome t cidr x hx
-  cases h : t.best cidr with
-  | none => rw [h] at this; simp at this
-  | some v => simp
+    (∀ x, x ∈ t.cands cidr → (t.bestRoute cidr).isSome = true) ∧
+    (t.recalc cidr).desired cidr = t.bestRoute cidr ∧
+    (∀ w : Want, (t.routeUpdate w).desired w.cidr = (t.routeUpdate w).bestRoute w.cidr) := by
+  refine ⟨fun r h => best_spec t cidr r h, ?_, recalc_desired t cidr, ?_⟩
+  · intro x hx
+    unfold RT.bestRoute
+    have := best_isSome t cidr x hx
+    cases h : t.best cidr with
+    | none => rw [h] at this; simp at this
+    | some v => simp
+  · intro w
+    unfold RT.routeUpdate
+    rw [recalc_desired]
+    rfl
 
 /-- **One attempt with a full resync** (`attemptApply` when `fullResync` is set; partial: not the per-interface
 rescan path).  From any state with one kernel route per destination: if the attempt reports no error and
@@ -93,13 +113,16 @@ theorem unowned_routes_unchanged_partial (w0 : W) (hn0 : w0.K.keys.Nodup) (ops :
 def exT : RT :=
   { pol := { workloadPrefixes := ["cali"], removeNonCalico := true, special := ["vxlan.calico"], allProtos := [80], exclusiveProtos := [80] }
     defProto := 80
-    ifaces := [("cali1", ⟨10, true⟩), ("cali2", ⟨11, true⟩), ("vxlan.calico", ⟨20, true⟩), ("cali3", ⟨12, false⟩)]
+    n2i := [("cali1", 10), ("cali2", 11), ("vxlan.calico", 20), ("cali3", 12)]
+    i2n := [(10, "cali1"), (11, "cali2"), (20, "vxlan.calico"), (12, "cali3")]
+    i2s := [(10, true), (11, true), (20, true), (12, false)]
     wants := [⟨2, "vxlan.calico", "10.65.0.1/32", "10.0.0.2", "vxlan"⟩, ⟨0, "cali1", "10.65.0.1/32", "", "link"⟩,
               ⟨1, "cali2", "10.65.0.1/32", "", "link"⟩, ⟨0, "cali3", "10.65.0.1/32", "", "link"⟩] }
 
 example : (exT.best "10.65.0.1/32").map (fun p => (p.1.iface, p.2)) = some ("cali1", 10) := by decide
 example : (exT.cands "10.65.0.1/32").length = 3 := by decide
-example : exT.desired "10.99.0.0/16" = none := by decide
+example : exT.bestRoute "10.99.0.0/16" = none := by decide
+example : (exT.recalc "10.65.0.1/32").desired "10.65.0.1/32" = some ⟨10, "", 80, "link"⟩ := by decide
 
 /-- A start state with a stale owned route (wrong interface), a stale owned route nobody wants, and a foreign
 route on a non-Calico interface. -/
@@ -130,5 +153,130 @@ final Apply, so that the inline retry runs), and the conclusion is what one expe
 #guard ((exW0.run exOps).stepOp (Op.apply { del := true })).1.K.get "10.1.0.0/16" == some ⟨2, "192.168.0.1", 3, "gw"⟩
 #guard ((exW0.run exOps).stepOp (Op.apply { del := true })).1.t.owns ⟨2, "192.168.0.1", 3, "gw"⟩ == false
 #guard ((exW0.run exOps).stepOp (Op.apply { del := true })).1.t.owns ⟨10, "", 80, "link"⟩
+
+/-! ### What the code believes versus what is true: the guard, and the known finding that violates it
+
+The theorems above speak about the code's CACHE of desired routes and its own interface maps.  The property is
+about the routes that SHOULD be there: the class-priority winner over the targets and the KERNEL's interfaces.
+`W.truth` is the table state with exact interface knowledge; `W.CacheTrue` (decidable: a finite check over the
+wanted destinations) says that the cached desired routes are the true winners. -/
+
+/-- Exact interface knowledge: what `refreshAllIfaceStates` is meant to learn from the kernel's links. -/
+def W.truth (w : W) : RT :=
+  { w.t with n2i := w.kif.map (fun p => (p.1, p.2.idx)), i2n := w.kif.map (fun p => (p.2.idx, p.1)),
+             i2s := w.kif.map (fun p => (p.2.idx, p.2.up)) }
+
+/-- The guard: for every wanted destination the cached desired route is the true class-priority winner, and
+nothing else is cached. -/
+def W.CacheTrue (w : W) : Bool :=
+  (w.t.wants.all (fun x => w.t.desired x.cidr == w.truth.bestRoute x.cidr)) &&
+  (w.t.des.all (fun p => w.t.wants.any (fun x => x.cidr == p.1)))
+
+theorem get_none_of_not_key {α : Type} (m : Map α) (c : String) (h : ∀ p ∈ m, p.1 ≠ c) : m.get c = none := by
+  induction m with
+  | nil => rfl
+  | cons p m ih =>
+    have hp : (c == p.1) = false := by simp [Ne.symm (h p List.mem_cons_self)]
+    simp only [Map.get, List.lookup, hp]
+    exact ih (fun q hq => h q (List.mem_cons_of_mem _ hq))
+
+theorem bestRoute_none_of_unwanted (t : RT) (c : String) (h : ∀ x ∈ t.wants, x.cidr ≠ c) : t.bestRoute c = none := by
+  have : t.cands c = [] := by
+    unfold RT.cands
+    apply List.filterMap_eq_nil_iff.2
+    intro x hx
+    have : (x.cidr == c) = false := by simp [h x hx]
+    simp [this]
+  unfold RT.bestRoute
+  rw [best_eq, this]; rfl
+
+theorem cacheTrue_spec (w : W) (h : w.CacheTrue = true) (c : String) : w.t.desired c = w.truth.bestRoute c := by
+  unfold W.CacheTrue at h
+  simp only [Bool.and_eq_true, List.all_eq_true, List.any_eq_true, beq_iff_eq] at h
+  by_cases hc : ∃ x ∈ w.t.wants, x.cidr = c
+  · obtain ⟨x, hx, rfl⟩ := hc
+    exact h.1 x hx
+  · have hnw : ∀ x ∈ w.t.wants, x.cidr ≠ c := fun x hx e => hc ⟨x, hx, e⟩
+    rw [bestRoute_none_of_unwanted w.truth c hnw]
+    apply get_none_of_not_key
+    intro p hp e
+    obtain ⟨x, hx, hxe⟩ := h.2 p hp
+    exact hnw x hx (hxe.trans e)
+
+/-- **routes_converge / stale_owned_removed against the truth** (partial: full-resync Applies, first attempt queues
+no interface, AND the explicit guard `CacheTrue` on the resulting state).  Under the guard, a successful Apply
+leaves the kernel holding exactly the true class-priority winner for every destination some target wants on a
+link that is up in the kernel, and every kernel route that is Felix's is such a winner.  The guard is NOT
+implied by the other hypotheses: see `ifindex_reuse_rescan_witness` below (known finding). -/
+theorem routes_converge_truth_partial (w0 : W) (hn0 : w0.K.keys.Nodup) (ops : List Op) (f : Fails)
+    (hf : (w0.run ops).t.fullResync = true)
+    (hq : ({ w0.run ops with f := f } : W).attempt.1.t.rescan = [])
+    (hok : ((w0.run ops).stepOp (Op.apply f)).2 = some false)
+    (hg : ((w0.run ops).stepOp (Op.apply f)).1.CacheTrue = true) :
+    (∀ c r, ((w0.run ops).stepOp (Op.apply f)).1.truth.bestRoute c = some r →
+      ((w0.run ops).stepOp (Op.apply f)).1.K.get c = some r) ∧
+    (∀ c r, ((w0.run ops).stepOp (Op.apply f)).1.K.get c = some r →
+      ((w0.run ops).stepOp (Op.apply f)).1.t.owns r = true →
+      ((w0.run ops).stepOp (Op.apply f)).1.truth.bestRoute c = some r) := by
+  refine ⟨?_, ?_⟩
+  · intro c r h
+    rw [← cacheTrue_spec _ hg c] at h
+    exact routes_converge_partial w0 hn0 ops f hf hq hok c r h
+  · intro c r hk ho
+    rw [← cacheTrue_spec _ hg c]
+    exact stale_owned_removed_partial w0 hn0 ops f hf hq hok c r hk ho
+
+/-- **Known finding (Lean witness)**: a stale name->index entry makes the third pass of `refreshAllIfaceStates`
+wipe a LIVE interface.  `exAlias` is the interface knowledge after `resyncIface` has refreshed `cali3`, which was
+re-created with the index `vxlan.calico` used to have, through `OnIfaceStateChanged(cali3, 20, up)` directly: index
+20 now names `cali3`, but `ifaceNameToIndex["vxlan.calico"] = 20` is still there.  The next full resync finds
+`vxlan.calico` missing and reports it NotPresent — which deletes the name and state of index 20, i.e. of `cali3`:
+its routes are no longer desired although the link is up. -/
+def exAlias : RT :=
+  { pol := exT.pol, defProto := 80
+    n2i := [("cali3", 20), ("vxlan.calico", 20)], i2n := [(20, "cali3")], i2s := [(20, true), (12, true)]
+    wants := [⟨3, "cali3", "10.65.1.0/26", "", "link"⟩]
+    des := [("10.65.1.0/26", ⟨20, "", 80, "link"⟩)] }
+
+theorem ifindex_reuse_rescan_witness :
+    exAlias.bestRoute "10.65.1.0/26" = some ⟨20, "", 80, "link"⟩ ∧
+    (exAlias.onIface "vxlan.calico" 0 none).i2n.get 20 = none ∧
+    (exAlias.onIface "vxlan.calico" 0 none).i2s.get 20 = none ∧
+    (exAlias.onIface "vxlan.calico" 0 none).bestRoute "10.65.1.0/26" = none ∧
+    ((exAlias.onIface "vxlan.calico" 0 none).routeUpdate ⟨3, "cali3", "10.65.1.0/26", "", "link"⟩).desired "10.65.1.0/26" = none := by
+  decide
+
+/-- The whole history of the known finding, on the model (executable): all hypotheses of
+`routes_converge_truth_partial` except the guard hold for the last Apply-with-resync, the guard fails after the
+following `RouteUpdate` + Apply, and the wanted route on the live link is missing. -/
+def exW1 : W := { t := { pol := exT.pol, defProto := 80 }, kif := [("lo", ⟨1, true⟩)] }
+def exFinding : List Op :=
+  [Op.iface "vxlan.calico" 20 (some true), Op.iface "cali3" 12 (some true), Op.apply {},
+   Op.iface "cali3" 12 (some false), Op.iface "cali3" 12 (some true), Op.link "cali3" 20 (some true),
+   Op.apply {}, Op.resync]
+#guard (exW1.run exFinding).t.fullResync
+#guard ((exW1.run exFinding).stepOp (Op.apply {})).2 == some false
+#guard ({ exW1.run exFinding with f := {} } : W).attempt.1.t.rescan.isEmpty
+#guard (exW1.run (exFinding ++ [Op.apply {}])).kif.get "cali3" == some ⟨20, true⟩
+#guard (exW1.run (exFinding ++ [Op.apply {}])).t.n2i.get "cali3" == some 20 && (exW1.run (exFinding ++ [Op.apply {}])).t.i2s.get 20 == none
+#guard ((exW1.run (exFinding ++ [Op.apply {}, Op.upd ⟨3, "cali3", "10.65.1.0/26", "", "link"⟩])).stepOp (Op.apply {})).2 == some false
+#guard !((exW1.run (exFinding ++ [Op.apply {}, Op.upd ⟨3, "cali3", "10.65.1.0/26", "", "link"⟩])).stepOp (Op.apply {})).1.CacheTrue
+#guard ((exW1.run (exFinding ++ [Op.apply {}, Op.upd ⟨3, "cali3", "10.65.1.0/26", "", "link"⟩])).stepOp (Op.apply {})).1.truth.bestRoute "10.65.1.0/26" == some ⟨20, "", 80, "link"⟩
+#guard ((exW1.run (exFinding ++ [Op.apply {}, Op.upd ⟨3, "cali3", "10.65.1.0/26", "", "link"⟩])).stepOp (Op.apply {})).1.K.get "10.65.1.0/26" == none
+/- ... and once the delayed callbacks arrive the interface is known again and the next Apply programs the route. -/
+#guard ((exW1.run (exFinding ++ [Op.apply {}, Op.upd ⟨3, "cali3", "10.65.1.0/26", "", "link"⟩, Op.apply {}, Op.flush])).stepOp (Op.apply {})).1.K.get "10.65.1.0/26" == some ⟨20, "", 80, "link"⟩
+
+/- Ordinary histories satisfy the guard: `exOps` above (route updates, a failing listing, an interface flap, foreign
+routes, QueueResync) followed by an Apply with a RouteDel failure; and a history in which links change with delayed
+callbacks and an index is re-used, as long as no per-interface rescan runs in the window. -/
+#guard ((exW0.run exOps).stepOp (Op.apply { del := true })).1.CacheTrue
+def exOps2 : List Op :=
+  [Op.iface "cali1" 10 (some true), Op.upd ⟨0, "cali1", "10.65.0.1/32", "", "link"⟩, Op.apply {},
+   Op.iface "cali1" 10 none, Op.link "cali2" 10 (some true), Op.upd ⟨0, "cali2", "10.65.0.2/32", "", "link"⟩, Op.resync]
+#guard (exW1.run exOps2).t.fullResync
+#guard ((exW1.run exOps2).stepOp (Op.apply {})).2 == some false
+#guard ((exW1.run exOps2).stepOp (Op.apply {})).1.CacheTrue
+#guard ((exW1.run exOps2).stepOp (Op.apply {})).1.K.get "10.65.0.2/32" == some ⟨10, "", 80, "link"⟩
+#guard ((exW1.run exOps2).stepOp (Op.apply {})).1.K.get "10.65.0.1/32" == none
 
 end CalicoVerif.C17
